@@ -314,6 +314,9 @@ func (c *Client) flush(ctx context.Context) error {
 	}
 	n, err := c.writer.Flush()
 	if err != nil {
+		// A failed write may have left a part of a packet on the wire, so the
+		// connection can not be used for further requests.
+		_ = c.Close()
 		return err
 	}
 	if ce := c.lg.Check(zap.DebugLevel, "Flush"); ce != nil {
